@@ -571,8 +571,10 @@ class Parser:
         if ch == "t":
             return "\t", index
         if ch == "u":
+            # Control characters are allowed when written as an escape
+            # sequence, only their raw form is invalid.
             codepoint, index = self._decode_hex_char(value, index, token)
-            return self._string_from_codepoint(codepoint, token), index
+            return chr(codepoint), index
 
         raise JSONPathSyntaxError(
             f"unknown escape sequence at index {token.index + index - 1}",
